@@ -1,0 +1,19 @@
+//go:build verif
+
+package render
+
+import (
+	"github.com/deadsy/sdfx/sdf"
+	v3 "github.com/deadsy/sdfx/vec/v3"
+)
+
+// VerifMcToTriangles is mcToTriangles: the triangles of one marching-cubes cell
+// (corner positions p, corner values v, iso level x).
+func VerifMcToTriangles(p [8]v3.Vec, v [8]float64, x float64) []*sdf.Triangle3 {
+	return mcToTriangles(p, v, x)
+}
+
+// VerifMcInterpolate is mcInterpolate: the crossing point on the cell edge p1-p2.
+func VerifMcInterpolate(p1, p2 v3.Vec, v1, v2, x float64) v3.Vec {
+	return mcInterpolate(p1, p2, v1, v2, x)
+}
